@@ -234,6 +234,12 @@ def run(index, rep, tier):
         fam = [f for f in index.functions_in_module("dendropy.datamodel.treecollectionmodel") if f.cls is not None and f.cls.name == "TreeList" and f.name in ("__setitem__", "extend", "__iadd__", "__add__")]
         rep.floor("R11.7", "multi-tree arguments of TreeList", 3, one_pass_iterable_rule(index, rep, "R11.7", fam, ("value", "other", "trees")))
 
+    # ---- R11.8 copies into another namespace match taxa by label
+    with rep.section("R11.8"):
+        rep.rule("R11.8", "a copy drawn into another namespace finds its taxa there by label, creating one only when the label is new (C12 R12.2: the clone paths map every source taxon through require_taxon(label) or to itself) - so a tree or list built from trees over another namespace never ends up with two taxa for one label")
+        nb = borrow(index, rep, "C12", {"R12.2"}, "R11.8")
+        rep.floor("R11.8", "borrowed obligations", 4, nb)
+
 
 def _bound(index, fi, w, val):
     """is the stored value bound to self.taxon_namespace on every path?"""
